@@ -143,21 +143,33 @@ Bytes(o, data, b2b, junk, res, out) ==
       /\ UNCHANGED dbg
 
 (* consuming one-shots: AsyncStreamCipher::{encrypt,decrypt}[_b2b], cts::{Encrypt,Decrypt}, *_padded* *)
+PaddedHows == {"padded", "padded:iso10126", "padded:ansix923", "padded:iso7816", "padded:zero", "padded:none"}
+IsPadded(how) == how \in PaddedHows
+PadOf(how) == CASE how = "padded" -> "pkcs7"
+                [] how = "padded:iso10126" -> "iso10126"
+                [] how = "padded:ansix923" -> "ansix923"
+                [] how = "padded:iso7816" -> "iso7816"
+                [] how = "padded:zero" -> "zero"
+                [] how = "padded:none" -> "none"
 OneShot(o, how, data, b2b, junk, res, out, outlen) ==
   LET ob   == objs[o]
-      bs   == IF how = "padded" THEN ob.unit ELSE ob.bs   \* padding works on the MODE's block size (1 for CFB-8)
-      pmsg == IF how = "padded" /\ ob.dir = "enc" THEN Pkcs7Pad(data, bs) ELSE data
-      need == IF how = "padded" /\ ob.dir = "enc" THEN Len(pmsg) ELSE Len(data)
+      pd   == IsPadded(how)
+      P    == IF pd THEN PadOf(how) ELSE ""
+      bs   == IF pd THEN ob.unit ELSE ob.bs   \* padding works on the MODE's block size (1 for CFB-8)
+      fits == pd /\ PadFits(P, Len(data), bs)
+      pmsg == IF pd /\ ob.dir = "enc" /\ fits THEN PadMsg(P, data, bs) ELSE data
+      need == Len(pmsg)
       raw  == CASE how = "cts" -> IF Len(data) >= bs THEN CtsRef(ob.kind, ob.dir, ob.c, ob.iv0, data, bs) ELSE <<>>
                 [] how = "async" -> AsyncOneShot(ob.kind, ob.dir, ob.c, ob.st, data, ob.unit, bs)
-                [] how = "padded" -> IF Len(pmsg) % bs = 0
-                                     THEN StepBlocks(ob.kind, ob.dir, ob.c, ob.st, pmsg, ob.unit, ob.bs).out ELSE <<>>
-      padOk == how = "padded" /\ ob.dir = "dec" /\ Len(data) % bs = 0 /\ Pkcs7Ok(raw, bs)
-      pout == IF how = "padded" /\ ob.dir = "dec" THEN (IF padOk THEN Pkcs7Unpad(raw) ELSE <<>>) ELSE raw
+                [] pd -> IF Len(pmsg) % bs = 0
+                         THEN StepBlocks(ob.kind, ob.dir, ob.c, ob.st, pmsg, ob.unit, ob.bs).out ELSE <<>>
+      ulen == IF pd /\ ob.dir = "dec" /\ Len(data) % bs = 0 THEN UnpadLen(P, raw, bs) ELSE -1
+      padOk == ulen >= 0
+      pout == IF pd /\ ob.dir = "dec" THEN (IF padOk THEN Slice(raw, 1, ulen) ELSE <<>>) ELSE raw
       pres == CASE how = "cts" -> IF Len(data) < bs \/ (b2b /\ Len(junk) # Len(data)) THEN "err" ELSE "ok"
                 [] how = "async" -> IF b2b /\ Len(junk) # Len(data) THEN "err" ELSE "ok"
-                [] how = "padded" ->
-                     IF ob.dir = "enc" THEN (IF b2b /\ Len(junk) < need THEN "err" ELSE "ok")
+                [] pd ->
+                     IF ob.dir = "enc" THEN (IF ~fits \/ (b2b /\ Len(junk) < need) THEN "err" ELSE "ok")
                      ELSE (IF Len(data) % bs # 0 \/ (b2b /\ Len(junk) < Len(data)) THEN "err"
                            ELSE IF padOk THEN "ok" ELSE "errpad")
       oo   == Slice(out, 1, Min(outlen, Len(out)))
@@ -172,8 +184,9 @@ OneShot(o, how, data, b2b, junk, res, out, outlen) ==
       /\ last' = [Lst("oneshot", o, res, pres) EXCEPT
                     !.how = how, !.n = Len(data),
                     !.outOk = (ok /\ pres = "ok" /\ oo = pout),
-                    !.lenOk = (~ok \/ how = "padded" \/ Len(oo) = Len(data)),
-                    !.keep = (ok \/ out = IF b2b THEN junk ELSE data)]
+                    !.lenOk = (~ok \/ pd \/ Len(oo) = Len(data)),
+                    \* (the in-place padded forms work in a buffer that is longer than the message)
+                    !.keep = (ok \/ IF b2b THEN out = junk ELSE Len(out) >= Len(data) /\ SubSeq(out, 1, Len(data)) = data)]
       /\ UNCHANGED <<ks, ksbad, dbg>>
 
 (* StreamCipherSeek::try_seek::<t>(p) *)
